@@ -33,5 +33,7 @@ def replay(dis):
     import sessioncheck
     c = dis['input']
     m = common.model_eval('session', [[sessioncheck.mcfg(c['config']), gdbcheck.model_events(c['events'])]], shards=1)[0]
-    print('differences:', gdbcheck.compare_case(c, m))
-    return 0
+    r = gdbcheck.compare_case(c, m)
+    print('differences:', r)
+    print('REPRODUCED' if r and r != 'oom' else 'not reproduced on the current tree')
+    return 1 if r and r != 'oom' else 0
